@@ -17,7 +17,7 @@ RULE = (
     "L=4 additionally over ~Well 1.2, ~Version and a custom section; thorough L=6 over a 12-symbol alphabet) as the value "
     "of item X through SectionParser(title, version)(**read_header_line(line, section)) - exactly what the header loop "
     "runs per line; every string of length <= 3 under mnemonics {X, API, UWI, api, Uwi} in 4 section kinds and as a "
-    "~Curves value through lasio.read; a list of known traps (inf, nan, hex, overflow, non-ASCII digits, 2^63 edge, "
+    "~Curves value through lasio.read; the values of NULL, STRT, STOP and STEP (which read() itself inspects) one file per string; a list of known traps (inf, nan, hex, overflow, non-ASCII digits, 2^63 edge, "
     "grouped digits); oracle: hand-written scanner (no regex, no float()) classifying definitely-literal / "
     "definitely-not / ambiguous ('5.', '.5', '5,', ',5'); non-trivial = distinct stripped non-empty strings"
 )
@@ -186,6 +186,9 @@ def points(tier):
         for mn in ("X", "API", "UWI", "api", "Uwi"):
             for chunk in range(0, 5220, CHUNK):
                 pts.append(["read", sec, mn, chunk])
+    # the items lasio itself looks at after parsing (NULL, STRT, STOP, STEP): one value per file, traps and short strings
+    for mn in ("NULL", "STRT", "STOP", "STEP"):
+        pts.append(["read1", "Well", mn])
     return pts
 
 
@@ -284,8 +287,40 @@ def run_read(sec, mnemonic, chunk):
     return vio, len(strs), nontriv
 
 
+def run_read1(sec, mnemonic):
+    """One file per string: the item is the only one of its name (NULL / STRT / ... are looked at by read() itself)."""
+    vio = []
+    strs = [t for t in TRAPS if ":" not in t and "\t" not in t] + [s for s in all_short(2)]
+    nontriv = set()
+    for s in strs:
+        if ":" in s:
+            continue
+        raw = s.strip()
+        lines = ["STRT.M 1 : s", "STOP.M 2 : e", "STEP.M 1 : st", "NULL. -999.25 : n"]
+        lines = [l for l in lines if not l.startswith(mnemonic)] + ["%s.U %s : d" % (mnemonic, s)]
+        text = "~Version\nVERS. 2.0 : v\nWRAP. NO : w\n~Well\n" + "\n".join(lines) + "\n~Curve\nD.M : d\nG. : g\n~ASCII\n1 5\n2 6\n"
+        try:
+            las = lasio.read(text, mnemonic_case="preserve")
+            got = las.well[mnemonic].value
+        except Exception as e:
+            vio.append(V("read-raises", "well20", mnemonic, s, "read succeeds", "%s: %s" % (type(e).__name__, str(e)[:150])))
+            vio[-1]["witness"] = {"read1": [sec, mnemonic], "string": s}
+            continue
+        if raw:
+            nontriv.add(raw)
+        why = judge(raw, got, "Well", mnemonic)
+        if why:
+            v = V("value-conversion-via-read", "well20", mnemonic, s, why, "%s %r" % (type(got).__name__, got))
+            v["witness"] = {"read1": [sec, mnemonic], "string": s}
+            vio.append(v)
+    return vio, len(strs), nontriv
+
+
 def check_point(pt):
     kind = pt[0]
+    if kind == "read1":
+        vio, n, nt = run_read1(pt[1], pt[2])
+        return e1.compress(vio), nt, kind, {kind + "_strings": n}, n
     if kind == "seam":
         vio, n, nt = run_seam(pt[1], pt[2], strings_for(pt[3], pt[4], ALPHA))
     elif kind == "seamT":
@@ -298,6 +333,8 @@ def check_point(pt):
 
 
 def replay(witness):
+    if "read1" in witness:
+        return [v for v in run_read1(*witness["read1"])[0] if v["witness"].get("string") == witness["string"]]
     if "read" in witness:
         sec, mn, chunk = witness["read"]
         return [v for v in run_read(sec, mn, chunk)[0] if v["witness"].get("string") == witness["string"]]
